@@ -1065,3 +1065,22 @@ def command_lines():
             ("missing_file", ["/nonexistent/dir/x.exp"], "errors"), ("missing_file_B", ["-B", "/nonexistent/dir/x.exp"], "errors"),
             ("directory_as_file", ["."], "errors"), ("debug_help", ["-d", "0", "{in}"], "accepted"), ("print_everything", ["-p", "E", "{in}"], "accepted")]
 
+
+def rename_ring(n, kind):
+    """n schemas, schema i imports item x from schema i+1 by name; kind: "closed" (the last imports it from the first — nobody
+    declares x), "missing" (the last neither imports nor declares it), "declared" (the last declares it)"""
+    parts = []
+    for i in range(n):
+        last = i == n - 1
+        if not last or kind == "closed":
+            body = f"USE FROM s{(i + 1) % n} (x);\n"
+        elif kind == "declared":
+            body = "ENTITY x;\n  v : INTEGER;\nEND_ENTITY;\n"
+        else:
+            body = ""
+        user = "ENTITY u SUBTYPE OF (x);\n  w : INTEGER;\nEND_ENTITY;\n" if i == 0 and not (last and kind == "declared") else ""
+        parts.append(f"SCHEMA s{i};\n{body}{user}END_SCHEMA;\n")
+    if n == 1 and kind == "declared":
+        parts = ["SCHEMA s0;\nENTITY x;\n  v : INTEGER;\nEND_ENTITY;\nENTITY u SUBTYPE OF (x);\n  w : INTEGER;\nEND_ENTITY;\nEND_SCHEMA;\n"]
+    return "".join(parts).encode()
+
